@@ -333,6 +333,32 @@ def run(rep, tier):
             rep.ok("C09.R4", fn, "wait polls phase with acquire order until it differs from the arrival token")
         else:
             rep.bad("C09.R4", fn, fn.loc, "wait-poll", "barrier::wait must poll 'phase.load(acquire) == old_phase' until false")
+        # every way out of wait() has seen the poll fail (= the phase advanced): the untimed yield_while returned, or the
+        # bounded busy wait reported success (yield_while_timeout returns true when the predicate became false, false on timeout)
+        from engine.core import forward
+        flow = FactFlow(fn)
+
+        def tr_(st, ev, pos):
+            if ev.get("k") == "call" and callee_short(ev) == "yield_while":
+                return frozenset()
+            return st
+
+        def ed_(st, blk, lab, cond):
+            if blk.term.get("noreturn"):
+                return None
+            if st and any(t and "yield_while_timeout(" in a for a, t in flow.edge_facts(blk, lab)):
+                return frozenset()
+            return st
+        _, bin_, _ = forward(fn, frozenset(["unchecked"]), tr_, edge=ed_)
+        at_exit = bin_.get(fn.exit)
+        if at_exit is None:
+            raise AnalysisBroken("barrier::wait has no reachable exit")
+        if "unchecked" in at_exit:
+            rep.bad("C09.R4", fn, fn.loc, "wait-early-exit", "barrier::wait can return on a path on which neither the untimed poll loop returned nor the "
+                    "bounded busy wait reported that the phase advanced (a timed-out busy wait must fall back to the untimed wait): a participant "
+                    "leaves the phase before all expected participants arrived")
+        else:
+            rep.ok("C09.R4", fn, "every exit of wait() follows a poll that saw the phase advance (busy-wait success or the untimed poll loop)")
     for fn in one("pika::barrier::arrive_and_drop", inst=True):
         fs = [(b, i, ev) for b, i, ev in fn.all_events() if ev.get("k") == "call" and callee_short(ev) == "fetch_sub" and P(ev.get("recv")) == "this->expected_adjustment"]
         ar = [(b, i, ev) for b, i, ev in fn.all_events() if ev.get("k") == "call" and callee_short(ev) == "arrive"]
